@@ -38,41 +38,41 @@ def expected (decompiled : Bytes) : CReq → Msg
 
 /-! ### the envelope -/
 
-theorem envelope_kids (id : Int) (op : Node) (ctls : List CCtl) :
-    (envelope id op ctls).kids = [Spec.int 2 id, op] ++ (if ctls.isEmpty then [] else [.cons 2 0 (ctls.map encodeCtl)]) := rfl
+theorem envelope_kids (tt : UInt8) (id : Int) (op : Node) (ctls : List CCtl) :
+    (envelope tt id op ctls).kids = [Spec.int 2 id, op] ++ (if ctls.isEmpty then [] else [.cons 2 0 (ctls.map (encodeCtl tt))]) := rfl
 
-theorem envelope_basic (id : Int) (op : Node) (ctls : List CCtl) : basicValidation (envelope id op ctls) = true := by
+theorem envelope_basic (tt : UInt8) (id : Int) (op : Node) (ctls : List CCtl) : basicValidation (envelope tt id op ctls) = true := by
   simp only [basicValidation, envelope_kids]
   split <;> simp [envelope, Spec.seq, isKind, Node.cls, Node.constructed, Node.tag, basicValidation_childMinChildren]
 
-theorem envelope_id (id : Int) (op : Node) (ctls : List CCtl) (h : Int64 id) :
-    requestMessageID (envelope id op ctls) = .ok id := by
+theorem envelope_id (tt : UInt8) (id : Int) (op : Node) (ctls : List CCtl) (h : Int64 id) :
+    requestMessageID (envelope tt id op ctls) = .ok id := by
   have hv := valueOf_int2 id h
   simp only [requestMessageID, envelope_basic, envelope_kids, requestMessageID_childMessageID]
   simp [hv]
 
-theorem envelope_controls (env : Env) (g : Guards) (id : Int) (op : Node) (ctls : List CCtl) (h : ∀ c ∈ ctls, c.WF) :
-    controlsOf env g (envelope id op ctls) = .ok (ctls.map (expectedCtl decimalOf)) := by
+theorem envelope_controls (env : Env) (g : Guards) (tt : UInt8) (htt : tt ≠ 0) (id : Int) (op : Node) (ctls : List CCtl) (h : ∀ c ∈ ctls, c.WF) :
+    controlsOf env g (envelope tt id op ctls) = .ok (ctls.map (expectedCtl decimalOf)) := by
   simp only [controlsOf, envelope_kids, controlPacket_childControl]
   cases ctls with
   | nil => simp
   | cons c cs =>
-    have := decodeControls_encode env g (c :: cs) h
+    have := decodeControls_encode env g tt htt (c :: cs) h
     simp only [List.map_cons] at this
     simp [Node.cls, Node.constructed, this]
 
 /-- `requestPacket` on a client envelope whose operation is not a Bind -/
-theorem envelope_request (g : Guards) (id : Int) (op : Node) (ctls : List CCtl)
+theorem envelope_request (g : Guards) (tt : UInt8) (id : Int) (op : Node) (ctls : List CCtl)
     (hc : op.cls = 1) (hk : op.constructed = true ∨ op.tag = 10 ∨ op.tag = 2) (ht : op.tag ≠ 0) :
-    requestPacket g (envelope id op ctls) = .ok op := by
+    requestPacket g (envelope tt id op ctls) = .ok op := by
   simp only [requestPacket, envelope_basic, assertApplicationRequest, envelope_kids,
     assertApplicationRequest_childApplicationRequest, requestPacket_childApplicationRequest,
     ApplicationBindRequest, ApplicationDelRequest, ApplicationUnbindRequest]
   have h1 : (op.tag == 0) = false := by simp [ht]
   rcases hk with hk | hk | hk <;> simp [hc, hk, h1]
 
-theorem envelope_request_bind (g : Guards) (id : Int) (dn pw : Bytes) (ctls : List CCtl) :
-    requestPacket g (envelope id (.cons 1 0 [Spec.int 2 3, Spec.octet dn, .prim 2 0 pw]) ctls) =
+theorem envelope_request_bind (g : Guards) (tt : UInt8) (id : Int) (dn pw : Bytes) (ctls : List CCtl) :
+    requestPacket g (envelope tt id (.cons 1 0 [Spec.int 2 3, Spec.octet dn, .prim 2 0 pw]) ctls) =
       .ok (.cons 1 0 [Spec.int 2 3, Spec.octet dn, .prim 2 0 pw]) := by
   have h3 : valueOf (Spec.int 2 3) = .int 3 := valueOf_int2 3 (by constructor <;> decide)
   simp only [requestPacket, envelope_basic, assertApplicationRequest, envelope_kids,
@@ -133,80 +133,80 @@ theorem decodeAttributes_encode (l : List CAttr) : decodeAttributes (l.map encod
 
 /-- every well-formed request of the seven operations reaches the handler as a message of
     the matching kind with exactly the client's fields, controls in order -/
-theorem C01_roundtrip_tree (env : Env) (g : Guards) (r : CReq) (hw : r.WF)
+theorem C01_roundtrip_tree (env : Env) (g : Guards) (tt : UInt8) (htt : tt ≠ 0) (r : CReq) (hw : r.WF)
     (decompiled : Bytes)
     (hf : ∀ id base sc de sz tm ty f attrs ctls, r = .search id base sc de sz tm ty f attrs ctls →
             env.decompile f = some decompiled) :
-    newMessage env g (clientEncode r) = .ok (expected decompiled r) := by
+    newMessage env g (clientEncode tt r) = .ok (expected decompiled r) := by
   cases r with
   | bind id dn pw ctls =>
     obtain ⟨hid, hc⟩ := hw
-    have hrp := envelope_request_bind g id dn pw ctls
+    have hrp := envelope_request_bind g tt id dn pw ctls
     simp only [clientEncode, newMessage, requestType, hrp, bind, cons_tag, ApplicationBindRequest,
-      envelope_id _ _ _ hid, simpleBindParameters, envelope_controls env g _ _ _ hc]
+      envelope_id tt _ _ _ hid, simpleBindParameters, envelope_controls env g tt htt _ _ _ hc]
     simp [childIs, isKind, Spec.octet, Node.cls, Node.constructed, Node.tag, Node.kids, Node.data,
       simpleBindParameters_childBindUserName, simpleBindParameters_childBindPassword, expected, pure]
   | search id base sc de sz tm ty f attrs ctls =>
     obtain ⟨hid, h1, h2, h3, h4, hc⟩ := hw
     have hfd := hf _ _ _ _ _ _ _ _ _ _ rfl
-    have hrp := envelope_request g id (.cons 1 3 [Spec.octet base, Spec.int 10 sc, Spec.int 10 de, Spec.int 2 sz,
-      Spec.int 2 tm, Spec.bool ty, f, Spec.seq (attrs.map Spec.octet)]) ctls rfl (Or.inl rfl) (by simp)
+    have hrp := envelope_request g tt id (.cons 1 3 [Spec.octet base, Spec.int 10 sc, Spec.int 10 de, Spec.int 2 sz,
+      Spec.int 2 tm, Spec.bool tt ty, f, Spec.seq (attrs.map Spec.octet)]) ctls rfl (Or.inl rfl) (by simp)
     have hk10 : ∀ i, isKind (Spec.int 10 i) 0 false (some 10) = true := fun _ => isKind_int _ _
     have hk2 : ∀ i, isKind (Spec.int 2 i) 0 false (some 2) = true := fun _ => isKind_int _ _
     simp only [clientEncode, newMessage, requestType, hrp, bind, cons_tag, ApplicationBindRequest,
-      ApplicationSearchRequest, envelope_id _ _ _ hid, searchParameters]
+      ApplicationSearchRequest, envelope_id tt _ _ _ hid, searchParameters]
     have e0 := octetChild_at (.cons 1 3 [Spec.octet base, Spec.int 10 sc, Spec.int 10 de, Spec.int 2 sz,
-      Spec.int 2 tm, Spec.bool ty, f, Spec.seq (attrs.map Spec.octet)]) searchParmeters_childBaseDN base rfl
+      Spec.int 2 tm, Spec.bool tt ty, f, Spec.seq (attrs.map Spec.octet)]) searchParmeters_childBaseDN base rfl
     have e1 := intChild_at (.cons 1 3 [Spec.octet base, Spec.int 10 sc, Spec.int 10 de, Spec.int 2 sz,
-      Spec.int 2 tm, Spec.bool ty, f, Spec.seq (attrs.map Spec.octet)]) searchParmeters_childScope 10 sc _ rfl (hk10 _) (valueOf_int10 _ h1)
+      Spec.int 2 tm, Spec.bool tt ty, f, Spec.seq (attrs.map Spec.octet)]) searchParmeters_childScope 10 sc _ rfl (hk10 _) (valueOf_int10 _ h1)
     have e2 := intChild_at (.cons 1 3 [Spec.octet base, Spec.int 10 sc, Spec.int 10 de, Spec.int 2 sz,
-      Spec.int 2 tm, Spec.bool ty, f, Spec.seq (attrs.map Spec.octet)]) searchParmeters_childDerefAliases 10 de _ rfl (hk10 _) (valueOf_int10 _ h2)
+      Spec.int 2 tm, Spec.bool tt ty, f, Spec.seq (attrs.map Spec.octet)]) searchParmeters_childDerefAliases 10 de _ rfl (hk10 _) (valueOf_int10 _ h2)
     have e3 := intChild_at (.cons 1 3 [Spec.octet base, Spec.int 10 sc, Spec.int 10 de, Spec.int 2 sz,
-      Spec.int 2 tm, Spec.bool ty, f, Spec.seq (attrs.map Spec.octet)]) searchParmeters_childSizeLimit 2 sz _ rfl (hk2 _) (valueOf_int2 _ h3)
+      Spec.int 2 tm, Spec.bool tt ty, f, Spec.seq (attrs.map Spec.octet)]) searchParmeters_childSizeLimit 2 sz _ rfl (hk2 _) (valueOf_int2 _ h3)
     have e4 := intChild_at (.cons 1 3 [Spec.octet base, Spec.int 10 sc, Spec.int 10 de, Spec.int 2 sz,
-      Spec.int 2 tm, Spec.bool ty, f, Spec.seq (attrs.map Spec.octet)]) searchParmeters_childTimeLimit 2 tm _ rfl (hk2 _) (valueOf_int2 _ h4)
+      Spec.int 2 tm, Spec.bool tt ty, f, Spec.seq (attrs.map Spec.octet)]) searchParmeters_childTimeLimit 2 tm _ rfl (hk2 _) (valueOf_int2 _ h4)
     have e5 : boolChild (.cons 1 3 [Spec.octet base, Spec.int 10 sc, Spec.int 10 de, Spec.int 2 sz,
-      Spec.int 2 tm, Spec.bool ty, f, Spec.seq (attrs.map Spec.octet)]) searchParmeters_childTypesOnly = .ok ty := by
-      simp [boolChild, childIs, searchParmeters_childTypesOnly, valueOf_bool]
+      Spec.int 2 tm, Spec.bool tt ty, f, Spec.seq (attrs.map Spec.octet)]) searchParmeters_childTypesOnly = .ok ty := by
+      simp [boolChild, childIs, searchParmeters_childTypesOnly, valueOf_bool tt htt]
     simp only [e0, e1, e2, e3, e4, e5]
     simp [searchParmeters_childFilter, searchParmeters_childAttributes, hfd, Spec.seq, isKind, Node.cls,
-      Node.constructed, Node.tag, Node.kids, octetList_map, envelope_controls env g _ _ _ hc, expected, pure]
+      Node.constructed, Node.tag, Node.kids, octetList_map, envelope_controls env g tt htt _ _ _ hc, expected, pure]
   | extended id name =>
-    have hrp := envelope_request g id (.cons 1 23 [.prim 2 0 name]) [] rfl (Or.inl rfl) (by simp)
+    have hrp := envelope_request g tt id (.cons 1 23 [.prim 2 0 name]) [] rfl (Or.inl rfl) (by simp)
     simp only [clientEncode, newMessage, requestType, hrp, bind, cons_tag, ApplicationBindRequest,
-      ApplicationSearchRequest, ApplicationExtendedRequest, envelope_id _ _ _ hw, extendedOperationName]
+      ApplicationSearchRequest, ApplicationExtendedRequest, envelope_id tt _ _ _ hw, extendedOperationName]
     simp [childIs, isKind, Node.cls, Node.constructed, Node.tag, Node.kids, Node.data,
       extendedOperationName_childExtendedOperationName, expected, pure]
   | modify id dn chs ctls =>
     obtain ⟨hid, hch, hc⟩ := hw
-    have hrp := envelope_request g id (.cons 1 6 [Spec.octet dn, Spec.seq (chs.map encodeChange)]) ctls rfl (Or.inl rfl) (by simp)
+    have hrp := envelope_request g tt id (.cons 1 6 [Spec.octet dn, Spec.seq (chs.map encodeChange)]) ctls rfl (Or.inl rfl) (by simp)
     have e0 := octetChild_at (.cons 1 6 [Spec.octet dn, Spec.seq (chs.map encodeChange)]) modifyParameters_childDN dn rfl
     simp only [clientEncode, newMessage, requestType, hrp, bind, cons_tag, ApplicationBindRequest,
-      ApplicationSearchRequest, ApplicationExtendedRequest, ApplicationModifyRequest, envelope_id _ _ _ hid,
+      ApplicationSearchRequest, ApplicationExtendedRequest, ApplicationModifyRequest, envelope_id tt _ _ _ hid,
       modifyParameters, e0]
     simp [childIs, isKind, Spec.seq, Node.cls, Node.constructed, Node.tag, Node.kids, modifyParameters_childChanges,
-      decodeChanges_encode chs hch, envelope_controls env g _ _ _ hc, expected, pure]
+      decodeChanges_encode chs hch, envelope_controls env g tt htt _ _ _ hc, expected, pure]
   | add id dn attrs ctls =>
     obtain ⟨hid, hc⟩ := hw
-    have hrp := envelope_request g id (.cons 1 8 [Spec.octet dn, Spec.seq (attrs.map encodeAttr)]) ctls rfl (Or.inl rfl) (by simp)
+    have hrp := envelope_request g tt id (.cons 1 8 [Spec.octet dn, Spec.seq (attrs.map encodeAttr)]) ctls rfl (Or.inl rfl) (by simp)
     have e0 := octetChild_at (.cons 1 8 [Spec.octet dn, Spec.seq (attrs.map encodeAttr)]) addParameters_childDN dn rfl
     simp only [clientEncode, newMessage, requestType, hrp, bind, cons_tag, ApplicationBindRequest,
       ApplicationSearchRequest, ApplicationExtendedRequest, ApplicationModifyRequest, ApplicationAddRequest,
-      envelope_id _ _ _ hid, addParameters, e0]
+      envelope_id tt _ _ _ hid, addParameters, e0]
     simp [childIs, isKind, Spec.seq, Node.cls, Node.constructed, Node.tag, Node.kids, addParameters_childAttributes,
-      decodeAttributes_encode, envelope_controls env g _ _ _ hc, expected, pure]
+      decodeAttributes_encode, envelope_controls env g tt htt _ _ _ hc, expected, pure]
   | delete id dn ctls =>
     obtain ⟨hid, hc⟩ := hw
-    have hrp := envelope_request g id (.prim 1 10 dn) ctls rfl (Or.inr (Or.inl rfl)) (by simp)
+    have hrp := envelope_request g tt id (.prim 1 10 dn) ctls rfl (Or.inr (Or.inl rfl)) (by simp)
     simp only [clientEncode, newMessage, requestType, hrp, bind, prim_tag, ApplicationBindRequest,
       ApplicationSearchRequest, ApplicationExtendedRequest, ApplicationModifyRequest, ApplicationAddRequest,
-      ApplicationDelRequest, envelope_id _ _ _ hid, deleteParameters, envelope_controls env g _ _ _ hc]
+      ApplicationDelRequest, envelope_id tt _ _ _ hid, deleteParameters, envelope_controls env g tt htt _ _ _ hc]
     simp [expected, pure]
   | unbind id =>
-    have hrp := envelope_request g id (.prim 1 2 []) [] rfl (Or.inr (Or.inr rfl)) (by simp)
+    have hrp := envelope_request g tt id (.prim 1 2 []) [] rfl (Or.inr (Or.inr rfl)) (by simp)
     simp only [clientEncode, newMessage, requestType, hrp, bind, prim_tag, ApplicationBindRequest,
       ApplicationSearchRequest, ApplicationExtendedRequest, ApplicationModifyRequest, ApplicationAddRequest,
-      ApplicationDelRequest, ApplicationUnbindRequest, envelope_id _ _ _ hw]
+      ApplicationDelRequest, ApplicationUnbindRequest, envelope_id tt _ _ _ hw]
     simp [expected, pure]
 
 /-! ### the property, byte level -/
@@ -214,22 +214,22 @@ theorem C01_roundtrip_tree (env : Env) (g : Guards) (r : CReq) (hw : r.WF)
 /-- the same statement for the bytes on the wire: gldap's read path (`ber.ReadPacket` model,
     `basicValidation`, `newMessage`) applied to the canonical serialisation of the client's
     message, with anything whatsoever following it in the stream -/
-theorem C01_roundtrip (env : Env) (g : Guards) (r : CReq) (hw : r.WF) (hber : (clientEncode r).WF env.ext)
+theorem C01_roundtrip (env : Env) (g : Guards) (tt : UInt8) (htt : tt ≠ 0) (r : CReq) (hw : r.WF) (hber : (clientEncode tt r).WF env.ext)
     (decompiled : Bytes) (rest : Bytes)
     (hf : ∀ id base sc de sz tm ty f attrs ctls, r = .search id base sc de sz tm ty f attrs ctls →
             env.decompile f = some decompiled) :
-    serveFrame env g (ser (clientEncode r) ++ rest) = .ok (expected decompiled r) := by
-  have hb : basicValidation (clientEncode r) = true := by
-    cases r <;> exact envelope_basic _ _ _
-  simp [serveFrame, readPacket_ser env.ext _ rest hber, hb, C01_roundtrip_tree env g r hw decompiled hf]
+    serveFrame env g (ser (clientEncode tt r) ++ rest) = .ok (expected decompiled r) := by
+  have hb : basicValidation (clientEncode tt r) = true := by
+    cases r <;> exact envelope_basic tt _ _ _
+  simp [serveFrame, readPacket_ser env.ext _ rest hber, hb, C01_roundtrip_tree env g tt htt r hw decompiled hf]
 
 /-- the statement for the source as it is now -/
-theorem C01_current (env : Env) (r : CReq) (hw : r.WF) (hber : (clientEncode r).WF env.ext)
+theorem C01_current (env : Env) (tt : UInt8) (htt : tt ≠ 0) (r : CReq) (hw : r.WF) (hber : (clientEncode tt r).WF env.ext)
     (decompiled rest : Bytes)
     (hf : ∀ id base sc de sz tm ty f attrs ctls, r = .search id base sc de sz tm ty f attrs ctls →
             env.decompile f = some decompiled) :
-    serveFrame env Generated.guards (ser (clientEncode r) ++ rest) = .ok (expected decompiled r) :=
-  C01_roundtrip env Generated.guards r hw hber decompiled rest hf
+    serveFrame env Generated.guards (ser (clientEncode tt r) ++ rest) = .ok (expected decompiled r) :=
+  C01_roundtrip env Generated.guards tt htt r hw hber decompiled rest hf
 
 /-! ### nothing is delivered as another kind (over ALL trees, not only the encoder's image) -/
 
@@ -389,12 +389,12 @@ theorem C01_bind_version (env : Env) (g : Guards) (p r v : Node) (hr : p.kids[1]
 def exBind : CReq := .bind 7 [99, 110, 61, 97] [112, 119] [.paging 100 [1, 2], .generic [49, 46, 50] true false [120]]
 
 set_option maxRecDepth 8192 in
-example : newMessage envNone allGuards (clientEncode exBind) =
+example : newMessage envNone allGuards (clientEncode 255 exBind) =
     .ok (.bind 7 [99, 110, 61, 97] [112, 119] [.paging 100 [1, 2], .str [49, 46, 50] true [120]]) := by decide
 
 set_option maxRecDepth 8192 in
 example : newMessage envNone allGuards
-    (clientEncode (.modify 9 [100] [⟨2, [109], [[97], [98, 99]]⟩] [])) =
+    (clientEncode 255 (.modify 9 [100] [⟨2, [109], [[97], [98, 99]]⟩] [])) =
     .ok (.modify 9 [100] [⟨2, [109], [[4, 1, 97], [4, 2, 98, 99]]⟩] []) := by decide
 
 /-- a ModifyDN request (application tag 12) is rejected -/
